@@ -206,6 +206,8 @@ class McastHarness:
         subs, conns = self.ev("subscribe"), self.ev("connect")
         ok = len(subs) == 1 and subs[0][1] is conn and subs[0][2][0] is self.observer
         self.rec(ctx, uid + "/subscribe/subscribes-the-observer-to-the-connectable-exactly-once", ok)
+        self.rec(ctx, uid + "/subscribe/an-arriving-subscriber-disposes-nothing", not self.ev("dispose"),
+                 detail=f"disposed while subscribing: {[getattr(e[1], 'name', e[1]) for e in self.ev('dispose')]!r}")
         self.rec(ctx, uid + "/subscribe/connects-iff-this-is-the-first-subscriber", len(conns) == (1 if zero else 0),
                  detail="decided from the count as it was when the subscription started, not after a call-out")
         if conns and subs:
